@@ -8,6 +8,7 @@ import uuid
 from niltype import Nil
 
 from . import model as M
+from . import codec as _codec
 from .codec import register
 
 E = Ellipsis
@@ -20,7 +21,20 @@ _OTHER_KINDS = [None, True, 0, 1.5, "q", b"q", [], {}, E, Nil]
 
 
 def _key(v):
-    return (type(v).__name__, repr(v))
+    return (type(v).__name__, repr(v), _has_sub(v))
+
+
+def _has_sub(v):
+    """Where plain-subclass instances sit inside v (they print like the built-in they extend)."""
+    if type(v) in _codec.SUBS:
+        inner = tuple(_has_sub(x) for x in (v if isinstance(v, list) else v.values())) \
+            if isinstance(v, (list, dict)) else ()
+        return (type(v).__name__,) + inner
+    if type(v) is list:
+        return tuple(_has_sub(x) for x in v) if any(_has_sub(x) for x in v) else ()
+    if type(v) is dict:
+        return tuple(_has_sub(x) for x in v.values()) if any(_has_sub(x) for x in v.values()) else ()
+    return ()
 
 
 def dedup(values):
@@ -37,6 +51,10 @@ def dedup(values):
 
 
 def cp(v):
+    if type(v) is _codec.ListSub:
+        return _codec.ListSub(cp(x) for x in v)
+    if type(v) is _codec.DictSub:
+        return _codec.DictSub({k: cp(x) for k, x in v.items()})
     if isinstance(v, list):
         return [cp(x) for x in v]
     if isinstance(v, collections.defaultdict):
@@ -46,6 +64,36 @@ def cp(v):
     if isinstance(v, dict):
         return {k: cp(x) for k, x in v.items()}
     return v
+
+
+def sub_twins(w):
+    """The same value with plain subclass instances in place of built-in ones (an instance of a
+    subclass of str IS a str, ...): everything replaced / only the leaves / only the containers.
+    bool, None and the other kinds stay as they are."""
+    S = _codec
+
+    def tw(v, leaves, containers):
+        if isinstance(v, bool) or v is None:
+            return v
+        if type(v) is list:
+            x = [tw(y, leaves, containers) for y in v]
+            return S.ListSub(x) if containers else x
+        if type(v) is dict:
+            x = {k: tw(y, leaves, containers) for k, y in v.items()}
+            return S.DictSub(x) if containers else x
+        if leaves:
+            if type(v) is str:
+                return S.StrSub(v)
+            if type(v) is int and v.bit_length() < 4000:
+                return S.IntSub(v)
+            if type(v) is float:
+                return S.FloatSub(v)
+        return v
+
+    out = [tw(w, True, True)]
+    if isinstance(w, (list, dict)):
+        out += [tw(w, True, False), tw(w, False, True)]
+    return out
 
 
 def missing_variants(w, depth=0):
@@ -196,6 +244,8 @@ def value_universe(t, limit=None):
     nhead = len(vals)
     for w in ws[:3]:
         vals += missing_variants(w)
+    for w in ws[:3]:
+        vals += sub_twins(w)
     nhead = len(vals)
     for w in ws:
         vals += perturb(w)
@@ -217,24 +267,7 @@ def value_universe(t, limit=None):
 
 # ---- hostile zoo (C08) -----------------------------------------------------------------------------
 
-class StrSub(str):
-    pass
-
-
-class IntSub(int):
-    pass
-
-
-class FloatSub(float):
-    pass
-
-
-class ListSub(list):
-    pass
-
-
-class DictSub(dict):
-    pass
+from .codec import DictSub, FloatSub, IntSub, ListSub, StrSub  # noqa: E402,F401
 
 
 class Twin:
